@@ -127,6 +127,25 @@ def run(ctx, rep):
             rep.undecided("C03.3", cons, why, loc)
         else:
             rep.violation("C03.3", cons, why, loc)
+    # the collected operand lists keep the definition order (bit j of the gate matrix <-> j-th qubit argument)
+    collected = set()
+    for st in loops:
+        for n in ast.walk(st):
+            if isinstance(n, ast.Call) and isinstance(n.func, ast.Attribute) and n.func.attr == "append" and isinstance(n.func.value, ast.Name):
+                collected.add(n.func.value.id)
+    cons_o = construct_of(ms, "operand-order")
+    reorder = None
+    for n in walk_no_nested(ms.node):
+        if isinstance(n, ast.Call) and isinstance(n.func, ast.Attribute) and n.func.attr in ("sort", "reverse") and isinstance(n.func.value, ast.Name) and n.func.value.id in collected:
+            reorder = n
+        if isinstance(n, ast.Call) and isinstance(n.func, ast.Name) and n.func.id in ("sorted", "reversed", "set", "frozenset") and n.args and isinstance(n.args[0], ast.Name) and n.args[0].id in collected:
+            reorder = n
+    if collected:
+        if reorder is not None:
+            rep.violation("C03.3", cons_o, f"`{ast.unparse(reorder)}` re-orders the operands collected in definition order: bit j of the gate matrix no longer corresponds to the gate's j-th qubit argument (wrong result for gates that are not symmetric in their qubits, e.g. `CX q[2] q[0]`)", f"{ms.path}:{reorder.lineno}", witness="prepare_all\nPx q[2]\nCX q[2] q[0]\nmeasure_all")
+        else:
+            rep.ok("C03.3", cons_o, f"operand lists {sorted(collected)} are used in collection order", ms.loc())
+
     # order of application: the state update happens inside the loop over the serialised gates, in iteration order
     cons = construct_of(ms, "gate-order")
     ser = [st for st in iter_stmts(ms.body) if isinstance(st, ast.For) and any(cs.kind == "visit" and cs.node is st.iter for cs in T.callsites(ms))]
